@@ -108,6 +108,14 @@ def crashStates (fs : Fs π) : List (SysOp π) → List (Fs π)
   | [] => [fs]
   | op :: rest => fs :: (partials fs op ++ crashStates (apply fs op) rest)
 
+/-- `crashStates` with labels: (index of the call about to run / running, bytes of it already written) -/
+def crashPoints (fs : Fs π) (i : Nat) : List (SysOp π) → List (Nat × Nat × Fs π)
+  | [] => [(i, 0, fs)]
+  | op :: rest =>
+    (i, 0, fs) :: ((match op with
+      | .write p d => (List.range (d.length + 1)).map (fun k => (i, k, apply fs (.write p (d.take k))))
+      | _ => []) ++ crashPoints (apply fs op) (i + 1) rest)
+
 /-- a complete, fault-free run -/
 def runAll (fs : Fs π) (ops : List (SysOp π)) : Fs π := ops.foldl apply fs
 
